@@ -21,6 +21,10 @@ CHECKS = {
    "TLA+ specs Registry.tla (registration list, sort, dispatch table) and RenderWalk.tla model-checked by TLC; every enumerated configuration instantiated as a real goldmark.New with probe parsers/transformers/renderers and the invocation log and output compared with the model",
    "TLC enumerates, per component class (inline parsers on a shared trigger, triggered and trigger-less block parsers, paragraph transformers, AST transformers, node renderers for one kind), every injective assignment of 3 probes to 5 priority ranks around the built-in, every accept and trigger script, every registration order and every route (option vs extension) and checks on the model that log and winner depend on priorities alone; each configuration (112k quick) is run on the real library under adjacent, wide and MinInt/MaxInt priority scales. RenderWalk.tla enumerates all trees of 4 (5) nodes with kinds that have a renderer, skip children, or have no renderer function (created before/after first use). Exhaustive within bounds.",
    "TLC, Json; built-in priorities as documented in parser.DefaultBlockParsers/DefaultInlineParsers/DefaultParagraphTransformers and the HTML renderer's 1000", "DESIGN.md 3.3, 5/C20"),
+ "C15": ("model_checking",
+   "TLA+ spec HeadingIDs.tla model-checked by TLC; every enumerated heading sequence concretised into documents and converted by the real library on fresh and long-used instances; observed id lists judged by the TLA+ acceptor TraceHeadingIDs.tla",
+   "TLC enumerates every sequence of up to 5 (thorough: 6) headings over 7 slug classes closed under the suffix operation (a, a-1, a-1-1, a-2, heading, heading-1, empty) and checks NonEmpty, Distinct and HistoryIndependent on the model (with negative controls); each sequence becomes 3 (7) real documents (ATX/Setext, levels, closing sequences, block quote / list item / nested containers, several texts per slug class) converted under 4 configurations, each on a fresh instance and on an instance that has converted every earlier document; TLC judges the observed ids. 6000 (100000) mutated documents go through the same acceptor. Exhaustive over the model's sequences; model checking with conformance replay.",
+   "TLC, Json/IOUtils; strict HTML tokenizer; AutoHeadingID without attribute syntax", "DESIGN.md 3.4, 5/C15"),
 }
 
 NOT_YET = "check not built yet in this revision of /verif (see DESIGN.md section 5 for the planned TLA+ decision procedure)"
